@@ -24,6 +24,7 @@ RULE = (
     "and 90 % of the documented limit 5*sqrt(2m)+m (moderate innovations well inside the gate, incl. sensors with more readings "
     "than the model has states). distinct = (program, covariance); non-trivial = sensor has >=2 readings or model >=2 states."
     "One ui.Model object (and one set of noise / sensor dictionaries) is also compiled four times with different calibration maps and CSE settings; every compiled object is checked against ITS calibration right after compiling and again after all were compiled."
+    " One prior State / Covariance object per filter and point is handed to every update (all sensors, all readings); the reference uses the values put into it."
 )
 ASSUMPTIONS = [
     "covariances SPD with condition <= 1e4, per-reading noise positive (property's domain)",
